@@ -110,6 +110,7 @@ func runC18(c *Ctx) {
 	checkBackingFileTruncated(c, "namespace.create.backing-file-empty")
 	checkCommitWalkerReleasesBeforeWaiting(c, "commit.walk.release-before-wait")
 	checkGenericErrorDiscipline(c, "pkg/fuse")
+	checkWriteKeepsFileSize(c, "write.size-from-backing-file")
 }
 
 // fieldWrites lists writes (assign, op-assign, inc/dec) to the struct field with the given ID in a package.
